@@ -32,6 +32,7 @@ DesignOK ==
   (lo = hi /\ ~done /\ Mode = "origin") =>
     LET bj == BatchJson(Picked[lo])
         bad == {n \in {bj.ns[j] : j \in 1..Len(bj.ns)} :
-                  ToLenC(n) # BlockLen(n) \/ FromLenC(ToLenC(n)) # n \/ (n > 0 /\ ToLenC(n) <= ToLenC(n - 1))}
+                  ToLenC(n) # BlockLenOf(n) \/ BlockLenFast(n) # BlockLenOf(n)
+                  \/ FromLenC(ToLenC(n)) # n \/ (n > 0 /\ ToLenC(n) <= ToLenC(n - 1))}
     IN IF bad = {} THEN TRUE ELSE PrintT(<<"UNEXPLAINED", bad>>) /\ FALSE
 =============================================================================
